@@ -69,8 +69,10 @@ ASSUMPTIONS = [
     "daemon's function-local convention), not readonly (skipped by design) — and not already exported in the daemon; every "
     "other name, in particular ordinary lower-case words and the names the daemon's functions use as locals, is inside the "
     "domain; values are str or sequences of str without NUL and without lone surrogates",
-    "the processor's pipe encodes text as UTF-8 (Python UTF-8 mode / UTF-8 locale); the daemon is started with the "
-    "environment EbuildProcessor.__init__ builds (no LANG/LC_*), i.e. in the C locale, so `read -N` counts bytes",
+    "the processor's pipe encodes text as UTF-8 (Python UTF-8 mode / UTF-8 locale); the daemon runs in the C locale, so `read -N` "
+    "counts bytes — checked, not assumed, for the caller's environment: every run starts its daemons from a caller environment "
+    "with a UTF-8 locale selected through LANG / LC_ALL / LC_CTYPE (+ NO_COLOR, LC_MESSAGES; from `locale -a`, rotating with the "
+    "seed, all of them in turn in the thorough tier, POSIX included) and reads each daemon's character locale from /proc",
     "file mode: the tmpdir path contains no newline/backslash and no leading/trailing blank (the header line is read with "
     "plain `read`)",
     "bash 5.2 doubles its internal marker bytes 0x01/0x7f inside \"…\" in array literals and right after a backslash in "
@@ -804,6 +806,67 @@ class Watchdog:
         self.t.cancel()
 
 
+# ---------------------------------------------------------------- the caller's process environment
+
+LOCALE_VARS = ("LANG", "LC_ALL", "LC_CTYPE", "LC_MESSAGES", "LC_COLLATE", "LANGUAGE", "NO_COLOR")
+
+
+def utf8_locales():
+    """UTF-8 locales installed on this machine (`locale -a`), most ordinary first"""
+    try:
+        names = subprocess.run(["locale", "-a"], stdout=subprocess.PIPE, stderr=subprocess.DEVNULL, timeout=60).stdout.decode().split()
+    except Exception:  # noqa
+        names = []
+    u = [n for n in names if n.lower().replace("-", "").endswith("utf8")]
+    pref = [n for n in u if n.lower().startswith("en_us")] + [n for n in u if n.lower().startswith("c.")]
+    return pref + [n for n in u if n not in pref]
+
+
+def caller_environments():
+    """the process environments pkgcore is started from: the daemon is spawned by EbuildProcessor.__init__ out of whatever
+    environment the caller has — a user's shell has a UTF-8 locale selected through LANG / LC_ALL / LC_CTYPE (and NO_COLOR, a
+    message locale, …); the POSIX environment of a test runner is the unusual one"""
+    u = utf8_locales()
+    if not u:
+        return [{}]
+    a, b = u[0], u[-1]
+    return [{"LANG": a}, {"LC_ALL": b}, {"LANG": "C", "LC_CTYPE": a}, {"LANG": b, "LC_MESSAGES": "C", "NO_COLOR": "1"},
+            {"LANG": a, "LC_COLLATE": "C", "LANGUAGE": "en"}, {}]
+
+
+class CallerEnv:
+    """sets the locale part of os.environ (what a daemon spawned from now on is started from); restores on exit"""
+
+    def __init__(self):
+        self.saved = {k: os.environ.get(k) for k in LOCALE_VARS}
+        self.current = None
+
+    def set(self, env):
+        for k in LOCALE_VARS:
+            os.environ.pop(k, None)
+        os.environ.update(env)
+        self.current = dict(env)
+
+    def restore(self):
+        for k, v in self.saved.items():
+            os.environ.pop(k, None)
+            if v is not None:
+                os.environ[k] = v
+
+
+def daemon_ctype(pid):
+    """the character-type locale the daemon process was started with (from its environment): None = C"""
+    try:
+        raw = open(f"/proc/{pid}/environ", "rb").read().split(b"\0")
+    except OSError:
+        return None
+    env = dict(x.decode("latin-1").split("=", 1) for x in raw if b"=" in x)
+    for k in ("LC_ALL", "LC_CTYPE", "LANG"):
+        if env.get(k):
+            return None if env[k] in ("C", "POSIX") else env[k]
+    return None
+
+
 # ---------------------------------------------------------------- the check
 
 def to_model_env(env):
@@ -813,6 +876,16 @@ def to_model_env(env):
 def run(ctx):
     from pkgcore.ebuild import processor
     rng = ctx.rng
+    caller = ctx.caller = CallerEnv()
+    envs = caller_environments()
+    # quick: one caller environment per run (a UTF-8 one for every seed but the last of the cycle); thorough: all, in turn
+    try:
+        processor.shutdown_all_processors()       # daemons spawned earlier come from another environment
+    except Exception:  # noqa
+        pass
+    caller.set(envs[ctx.seed % len(envs)])
+    ctx.extra["caller_environment"] = dict(caller.current)
+    ctx.extra["caller_environments_available"] = envs
 
     # ---- a real daemon gives the real readonly list (and is reused for the round trips below)
     scratch = tempfile.mkdtemp(prefix="c31-")
@@ -823,6 +896,7 @@ def run(ctx):
             processor.shutdown_all_processors()
         except Exception:
             pass
+        caller.restore()
         shutil.rmtree(scratch, ignore_errors=True)
 
 
@@ -1067,6 +1141,10 @@ def _daemon(ctx, processor, rng, scratch, ro):
         plans = [(merged, gen_env(rng, 1000, daemon=True, ro=ro), [routes[ctx.seed % 3]])]
     else:
         plans = [(merged, gen_env(rng, 1000 + i, daemon=True, ro=ro), [r]) for i, r in enumerate(routes)]
+    # first a small mapping with one non-ASCII value on a size-prefixed route: the cheapest transfer on which byte count and
+    # character count differ (a daemon that does not count bytes shows here within one round trip)
+    small = ({"VT_p_ascii": "plain", "VT_p_nonascii": "é日本 ü"}, {"VT_p_second": "ß"})
+    plans = [small + ([["inline", "depend"][ctx.seed % 2]] if ctx.quick() else ["inline", "depend", "file"],)] + plans
     # transfers several times the pipe capacity, inline (send_env without tmpdir, gen_ebuild_env)
     # (array / single value only: hundreds of variables make the daemon's own environment dump take half a minute)
     plans += [(gen_big(rng, kinds=(0, 1)), gen_env(rng, 2000, daemon=True, ro=ro), ["inline"]),
@@ -1082,8 +1160,18 @@ def _daemon(ctx, processor, rng, scratch, ro):
     from pkgcore.ebuild import const as e_const
     blacklist, ordinary = None, []
     slowest = [1.0]
+    envs = caller_environments()
+    hung = False
     for plan_no, (env1, env2, env_routes) in enumerate(plans):
+        if not ctx.quick() and plan_no:
+            # thorough: the caller's environment changes from plan to plan (fresh daemons)
+            processor.shutdown_all_processors()
+            ctx.caller.set(envs[(ctx.seed + plan_no) % len(envs)])
         for route in env_routes:
+            if hung:
+                ctx.note("a transfer hung (both sides waiting): the remaining daemon plans were skipped")
+                ctx.count("daemon_plans_skipped_after_a_hang")
+                continue
             if blacklist is not None:
                 # ordinary names (words, letters, the daemon's own function locals) next to the VT_ ones: all of them in the first
                 # transfer with short values, a random dozen with hostile values in the second
@@ -1097,8 +1185,10 @@ def _daemon(ctx, processor, rng, scratch, ro):
                 ctx.count("daemon_transfers_with_ordinary_names")
             # the first plan (every plan in the thorough tier) hands its first mapping over once more at the end — the SAME
             # object, as ebd.py passes self.env to run_phase for every phase of a build
-            again = plan_no == 0 or (not ctx.quick() and sum(len(str(v)) for v in env1.values()) < 20000)
-            case = {"env": env1, "env_second_transfer": env2, "kind": "daemon-" + route}
+            again = plan_no == 1 or (not ctx.quick() and sum(len(str(v)) for v in env1.values()) < 20000)
+            case = {"env": env1, "env_second_transfer": env2, "kind": "daemon-" + route,
+                    "caller_environment": dict(ctx.caller.current)}
+            ctx.count("daemon_caller_env_" + ("+".join(f"{k}={v}" for k, v in sorted(ctx.caller.current.items())) or "POSIX"))
             t_plan = time.time()
             # a transfer that does not finish is a failure of the property (desynchronised pipe: both ends wait) — but on a
             # heavily loaded machine a healthy round trip was seen to take 20-30 s; a plan stopped by the watchdog is therefore
@@ -1110,6 +1200,12 @@ def _daemon(ctx, processor, rng, scratch, ro):
                 if os.path.exists(out):
                     os.unlink(out)
                 ebp = processor.request_ebuild_processor()
+                ctype = daemon_ctype(ebp.pid)
+                if ctype is not None:
+                    # the model's assumption "the daemon runs in the C locale" does not hold for this daemon: `read -N` will count
+                    # characters; a transfer that gets stuck is then not a matter of machine load
+                    limit = 30 if attempt == 0 else 90
+                    ctx.count("daemon_started_in_a_non_C_locale")
                 rec = Recorder(ebp.ebd_write)
                 ebp.ebd_write = rec
                 err, seq = None, [env1, env2]
@@ -1175,6 +1271,9 @@ def _daemon(ctx, processor, rng, scratch, ro):
                     err = (f"the daemon did not finish a transfer in time, nor on a fresh daemon within {limit} s, {int(limit / max(slowest[0], 0.1))} "
                            f"times the slowest healthy transfer of this run (killed by the watchdog)"
                            + (f" [{err}]" if err else ""))
+                if ctype is not None and err is not None:
+                    err += (f" [the daemon was started with the character locale {ctype!r} taken from the caller's environment "
+                            f"{ctx.caller.current!r}: its `read -N` counts characters, Python announces bytes]")
                 ebp.ebd_write = rec.inner
                 try:
                     if err is None:
@@ -1186,6 +1285,7 @@ def _daemon(ctx, processor, rng, scratch, ro):
                     pass
                 if not wd.fired:
                     break
+                hung = attempt == 1
                 ctx.count("daemon_plan_repeated_after_watchdog")
             ctx.case(case, True, key=route + repr(sorted(env1.items())) + repr(sorted(env2.items())))
             ctx.count("daemon_" + route)
